@@ -56,23 +56,22 @@ def lookup_rule(chk, name, fm):
     rel = fm["rel"]
     fn = chk.fn(rel, f"{name}.sample_from_manifest")
     where = f"{rel}:{name}.sample_from_manifest"
-    # lookup = np.array([0] + list(manifest["cum_cards"]))
-    ldef = [s for s in fn.body if isinstance(s, ast.Assign) and norm(s.targets[0]) == "lookup"]
-    ok = len(ldef) == 1 and norm(ldef[0].value) in ('np.array([0]+list(manifest["cum_cards"]))', "np.array([0]+list(manifest['cum_cards']))",
-                                                    'np.insert(np.array(manifest["cum_cards"]),0,0)')
-    chk.ob("C17.R1", where, "lookup=[0]+cum_cards", ok, "the look-up table is 0 followed by the cumulative card counts", node=ldef[0] if ldef else fn)
     loops = [l for l in fn.body if isinstance(l, ast.For) and "sample" in norm(l.iter)]
     if len(loops) != 1:
         raise AnalysisError(f"{name}.sample_from_manifest: loop over the sample not found")
     l = loops[0]
     sv = norm(l.target.elts[1]) if isinstance(l.target, ast.Tuple) else norm(l.target)
-    ss = [c for c in walk_local(l) if isinstance(c, ast.Call) and norm(c.func) in ("np.searchsorted", "numpy.searchsorted", "lookup.searchsorted")]
+    ss = [c for c in walk_local(l) if isinstance(c, ast.Call) and norm(c.func) in ("np.searchsorted", "numpy.searchsorted") and c.args]
     chk.need("C17.R1", len(ss), 1, f"searchsorted call in {name}.sample_from_manifest")
     call = ss[0]
+    LK = norm(call.args[0])  # the look-up table is whatever is searched
+    ldef = [s for s in fn.body if isinstance(s, ast.Assign) and norm(s.targets[0]) == LK]
+    ok = len(ldef) == 1 and norm(ldef[0].value) in ("np.array([0]+list(manifest['cum_cards']))", "np.insert(np.array(manifest['cum_cards']),0,0)")
+    chk.ob("C17.R1", where, "lookup=[0]+cum_cards", ok, "the look-up table is 0 followed by the cumulative card counts", node=ldef[0] if ldef else fn)
     kw = {k.arg: k.value for k in call.keywords}
     side = kw.get("side")
     side_v = side.value if isinstance(side, ast.Constant) else ("left" if side is None else None)
-    args_ok = [norm(a) for a in call.args][:2] == ["lookup", sv]
+    args_ok = [norm(a) for a in call.args][:2] == [LK, sv]
     chk.ob("C17.R1", where, "search-side-matches-base", args_ok and side_v == fm["side"],
            f"{name} positions are {fm['base']}-based, so the batch is found with searchsorted(lookup, s, side='{fm['side']}')",
            node=call, side=side_v, args=[norm(a) for a in call.args])
@@ -89,13 +88,14 @@ def lookup_rule(chk, name, fm):
                 tx._assign(s0.targets[0], symx.map_e(tx.expr(s0.value), _strip_int))
             except symx.Unsupported:
                 pass
-    # offset
-    off = [s for s in l.body if isinstance(s, ast.Assign) and norm(s.targets[0]) == "card_in_batch"]
+    # offset: the loop-body local computed from the look-up table
+    off = [s for s in l.body if isinstance(s, ast.Assign) and isinstance(s.targets[0], ast.Name) and f"{LK}[" in norm(s.value)]
+    OFF = norm(off[0].targets[0]) if len(off) == 1 else None
     ok_off = False
     detail = {}
     if len(off) == 1:
-        v = tx.env.get("card_in_batch")
-        want = S(sv) - S("lookup[R - 1]")
+        v = tx.env.get(OFF)
+        want = S(sv) - S(f"{LK}[R - 1]")
         ok_off = isinstance(v, E) and is_zero(v.e - want)
         detail["offset"] = repr(v)
     chk.ob("C17.R1", where, "offset=s-lookup[R-1]", ok_off,
@@ -110,8 +110,16 @@ def lookup_rule(chk, name, fm):
     chk.ob("C17.R1", where, "row=R-1", bool(rows_) and not bad,
            "every column of the card's batch is read from manifest row R - 1", node=l, rows=len(rows_), bad=bad)
     # R2 phantom / selection order are C08.R5 / C07.R6; here: the card id is built from that row and offset
-    cid = [s for s in l.body if isinstance(s, ast.Assign) and norm(s.targets[0]) == "card_id"]
-    ok = len(cid) == 1 and isinstance(cid[0].value, ast.JoinedStr) and [norm(v.value) for v in cid[0].value.values if isinstance(v, ast.FormattedValue)] == ["tab", "batch", "card_in_batch"]
+    cid = [s for s in l.body if isinstance(s, ast.Assign) and isinstance(s.targets[0], ast.Name) and isinstance(s.value, ast.JoinedStr)]
+    ok = False
+    if len(cid) == 1:
+        parts = [v.value for v in cid[0].value.values if isinstance(v, ast.FormattedValue)]
+        locd = {norm(a.targets[0]): a.value for a in l.body if isinstance(a, ast.Assign) and isinstance(a.targets[0], ast.Name)}
+        def col_of(n):
+            d = locd.get(norm(n))
+            return d.slice.value if isinstance(d, ast.Subscript) and isinstance(d.slice, ast.Constant) and "manifest.iloc" in norm(d.value) else None
+        ok = len(parts) == 3 and norm(parts[2]) == OFF and col_of(parts[0]) in ("Tabulator Number", "Tabulator") \
+            and col_of(parts[1]) in ("Batch Number", "Batch Name")
     chk.ob("C17.R2", where, "card-id-from-batch-and-position", ok,
            "the card identifier is tabulator-batch-position of the located batch", node=cid[0] if cid else l, strength="N")
     so = [(t, v, s) for t, v, s in stores(l) if isinstance(t, ast.Subscript) and norm(t.slice) in ('"selection_order"', "'selection_order'")]
@@ -139,17 +147,23 @@ def cvr_lookup_rule(chk, name, fm):
     if len(loops) == 1:
         l = loops[0]
         iv, sv = [norm(e) for e in l.target.elts]
-        apps = [s for s in l.body if isinstance(s, ast.Expr) and isinstance(s.value, ast.Call) and norm(s.value.func) == "cvr_sample.append"]
-        ids = [s for s in l.body if isinstance(s, ast.Assign) and norm(s.targets[0]) == "cvr_id"]
-        ok = len(apps) == 1 and norm(apps[0].value.args[0]) == f"cvr_list[{sv}]" and len(ids) == 1 and norm(ids[0].value) == f"cvr_list[{sv}].id"
-        # card_id derives from cvr_id on every path
-        cids = [s for s in walk_local(l) if isinstance(s, ast.Assign) and norm(s.targets[0]) == "card_id"]
-        uses = all(_derives_from(s.value, l, "cvr_id") for s in cids)
+        apps = [s for s in l.body if isinstance(s, ast.Expr) and isinstance(s.value, ast.Call) and isinstance(s.value.func, ast.Attribute)
+                and s.value.func.attr == "append" and s.value.args and norm(s.value.args[0]) == f"cvr_list[{sv}]"]
+        CS = norm(apps[0].value.func.value) if len(apps) == 1 else None  # the list of sampled CVRs
+        ids = [s for s in l.body if isinstance(s, ast.Assign) and isinstance(s.targets[0], ast.Name) and norm(s.value) == f"cvr_list[{sv}].id"]
+        CVID = norm(ids[0].targets[0]) if len(ids) == 1 else None
+        ok = len(apps) == 1 and len(ids) == 1
+        # the card identifier (the key of the selection-order record) derives from the CVR's id on every path
+        keys = {norm(t.value.slice) for t, v, s in stores(l) if isinstance(t, ast.Subscript) and isinstance(t.value, ast.Subscript)
+                and norm(t.slice) in ("'selection_order'", '"selection_order"')}
+        CID = keys.pop() if len(keys) == 1 else None
+        cids = [s for s in walk_local(l) if isinstance(s, ast.Assign) and CID and norm(s.targets[0]) == CID]
+        uses = all(_derives_from(s.value, l, CVID) for s in cids) if CVID else False
         ok = ok and bool(cids) and uses
         detail = dict(card_id=[norm(s.value) for s in cids])
         rets = [r for r in walk_local(fn) if isinstance(r, ast.Return)]
-        ok = ok and len(rets) == 1 and "cvr_sample" in [norm(e) for e in rets[0].value.elts]
-        sorts = [c for c in walk_local(fn) if isinstance(c, ast.Call) and isinstance(c.func, ast.Attribute) and c.func.attr in ("sort", "reverse") and norm(c.func.value) == "cvr_sample"]
+        ok = ok and len(rets) == 1 and CS in [norm(e) for e in rets[0].value.elts]
+        sorts = [c for c in walk_local(fn) if isinstance(c, ast.Call) and isinstance(c.func, ast.Attribute) and c.func.attr in ("sort", "reverse") and norm(c.func.value) == CS]
         ok = ok and not sorts
     chk.ob("C17.R2", where, "cvrs-in-selection-order-with-matching-ids", ok,
            "the CVR-driven lookup returns cvr_list[s] for each s in sample order (never re-sorted) and derives the card identifier from that CVR's id",
@@ -228,15 +242,18 @@ def prep_rule(chk, name, fm):
     where = f"{rel}:{name}.prep_manifest"
     col = fm["count_col"]
     # manifest_cards = manifest[col].sum()
-    mc = [s for s in fn.body if isinstance(s, ast.Assign) and norm(s.targets[0]) == "manifest_cards"]
-    ok = len(mc) == 1 and norm(mc[0].value) in (norm(f'manifest["{col}"].sum()'), norm(f"manifest['{col}'].sum()"))
+    mc = [s for s in fn.body if isinstance(s, ast.Assign) and isinstance(s.targets[0], ast.Name) and norm(s.value) == norm(f"manifest['{col}'].sum()")]
+    MCN = norm(mc[0].targets[0]) if len(mc) == 1 else "manifest_cards"
+    rets0 = [r for r in walk_local(fn) if isinstance(r, ast.Return) and isinstance(r.value, ast.Tuple) and len(r.value.elts) == 3]
+    PHN = norm(rets0[0].value.elts[2]) if rets0 else "phantoms"
+    ok = len(mc) == 1
     chk.ob("C17.R3", where, "manifest_cards=sum-of-counts", ok, "manifest_cards is the sum of the per-batch card counts", node=mc[0] if mc else fn, strength="N")
     asserts = [s for s in fn.body if isinstance(s, ast.Assert)]
     tests = {norm(a.test): a for a in asserts}
-    a1 = next((a for t, a in tests.items() if t in ("manifest_cards<=max_cards", "max_cards>=manifest_cards")), None)
-    a2 = next((a for t, a in tests.items() if t in ("manifest_cards>=n_cvrs", "n_cvrs<=manifest_cards")), None)
-    branch = [s for s in fn.body if isinstance(s, ast.If) and "manifest_cards" in norm(s.test)]
-    cum = [s for s in fn.body if isinstance(s, ast.Assign) and norm(s.targets[0]) in ('manifest["cum_cards"]', "manifest['cum_cards']")]
+    a1 = next((a for t, a in tests.items() if t in (f"{MCN}<=max_cards", f"max_cards>={MCN}")), None)
+    a2 = next((a for t, a in tests.items() if t in (f"{MCN}>=n_cvrs", f"n_cvrs<={MCN}")), None)
+    branch = [s for s in fn.body if isinstance(s, ast.If) and MCN in norm(s.test)]
+    cum = [s for s in fn.body if isinstance(s, ast.Assign) and norm(s.targets[0]) in ("manifest['cum_cards']",)]
     first_effect = min([s.lineno for s in branch + cum] or [10 ** 9])
     ok = a1 is not None and a2 is not None and a1.lineno < first_effect and a2.lineno < first_effect and mc and mc[0].lineno < a1.lineno
     chk.ob("C17.R3", where, "sanity-assertions-first", bool(ok),
@@ -246,19 +263,19 @@ def prep_rule(chk, name, fm):
     if len(branch) == 1:
         b = branch[0]
         c = Tx().cond(b.test)
-        want = spec.cond_term("manifest_cards < max_cards")
+        want = spec.cond_term(f"{MCN} < max_cards")
         okc = aud.cond_equiv(c, want)[0]
-        ph = [s for s in b.body if isinstance(s, ast.Assign) and norm(s.targets[0]) == "phantoms"]
+        ph = [s for s in b.body if isinstance(s, ast.Assign) and norm(s.targets[0]) == PHN]
         okp = False
         if len(ph) == 1:
             v = Tx().expr(ph[0].value)
-            okp = isinstance(v, E) and is_zero(v.e - (S("max_cards") - S("manifest_cards")))
+            okp = isinstance(v, E) and is_zero(v.e - (S("max_cards") - S(MCN)))
         okrow = False
         for d in [n for n in ast.walk(b) if isinstance(n, ast.Dict)]:
             for k, v in zip(d.keys, d.values):
-                if isinstance(k, ast.Constant) and k.value == col and norm(v) == "phantoms":
+                if isinstance(k, ast.Constant) and k.value == col and norm(v) == PHN:
                     okrow = True
-        ph0 = [s for s in fn.body if isinstance(s, ast.Assign) and norm(s.targets[0]) == "phantoms" and s.lineno < b.lineno]
+        ph0 = [s for s in fn.body if isinstance(s, ast.Assign) and norm(s.targets[0]) == PHN and s.lineno < b.lineno]
         ok0 = len(ph0) == 1 and norm(ph0[0].value) == "0"
         re_as = [s for s in b.body if isinstance(s, ast.Assign) and norm(s.targets[0]) == "manifest"]
         ok = okc and okp and okrow and ok0 and len(re_as) == 1 and not b.orelse
@@ -290,5 +307,5 @@ def prep_rule(chk, name, fm):
     chk.ob("C17.R3", where, "cum_cards-after-append", bool(ok),
            "cumulative counts are computed from the count column after the phantom batch has been appended", node=cum[0] if cum else fn)
     rets = [r for r in walk_local(fn) if isinstance(r, ast.Return)]
-    ok = len(rets) == 1 and [norm(e) for e in rets[0].value.elts] == ["manifest", "manifest_cards", "phantoms"]
+    ok = len(rets) == 1 and [norm(e) for e in rets[0].value.elts] == ["manifest", MCN, PHN]
     chk.ob("C17.R3", where, "returns", ok, "returns (manifest, manifest_cards, phantoms)", node=rets[0] if rets else fn, strength="N")
